@@ -1042,7 +1042,7 @@ func main() {
 	for i := 0; i < nConS; i++ {
 		runMpscConc(w, genMpscConc(r.Fork()))
 	}
-	ms, ms1 := 5000, 3000
+	ms, ms1 := 4000, 2500
 	if o.Tier == "thorough" {
 		ms, ms1 = 60000, 30000
 	}
